@@ -342,39 +342,9 @@ func genCase(g *sqlh.Gen) Case {
 
 // ---- classification (the harness's own predicates, independent of the Coq model) ----
 
-func isZeroGV(v sqlh.GV) bool {
-	switch v.T {
-	case "string", "Label", "bytes":
-		return v.S == "" && v.T != "bytes"
-	case "bool":
-		return !v.B
-	case "float64":
-		return v.Q == 0
-	case "nil", "nilptr", "nilbytes":
-		return true
-	case "ptr":
-		return false
-	}
-	return v.Z == 0
-}
+func isZeroGV(v sqlh.GV) bool { return sqlh.IsZeroGV(v) }
 
-// exactlyTyped: the filter value has the Go type of the column's struct field (or is a pointer to it, or
-// nil for a column that is not implicitnull).  Its negation is the known finding c10-batch-matcher-go-type.
-func exactlyTyped(c *sqlh.ColDesc, v sqlh.GV) bool {
-	bt := sqlh.BaseType(c.Ty)
-	switch v.T {
-	case "nil", "nilptr":
-		// nil on a []byte column: the NULL scans into a nil slice, which MakeHashable turns into ""
-		return !c.ImplicitNull && bt != "bytes"
-	case "nilbytes":
-		return false // hashed as "", like an empty slice
-	case "ptr":
-		return v.Elem.T == bt && !(c.ImplicitNull && isZeroGV(*v.Elem)) && !(bt == "bytes" && v.Elem.S == "")
-	case "bytes":
-		return bt == "bytes" && v.S != "" // an empty []byte is hashed like a NULL one
-	}
-	return v.T == bt
-}
+func exactlyTyped(c *sqlh.ColDesc, v sqlh.GV) bool { return sqlh.ExactlyTyped(c, v) }
 
 func denotesNull(c *sqlh.ColDesc, v sqlh.GV) bool {
 	return v.T == "nil" || v.T == "nilptr" || v.T == "nilbytes" || (c.ImplicitNull && v.T != "ptr" && isZeroGV(v))
